@@ -82,7 +82,7 @@ class CallGraph:
         self.bind = bindings or Bindings(facts)
         self.sites = defaultdict(list)
         self.problems = []
-        self.job_run_impls = [f.name for f in facts.all_fns if f.name.endswith('as %s>::run' % SCHEDULED_JOB)]
+        self.job_run_impls = [n for n in facts.trait_impl_methods(SCHEDULED_JOB, 'run') if facts.fn(n)]
         self.wake_impls = [f.name for f in facts.all_fns if f.name.endswith('as futures_task::arc_wake::ArcWake>::wake_by_ref')]
         self.future_impls = {}
         for i in facts.impls:
